@@ -266,6 +266,21 @@ impl DiskIO {
                 )));
             }
 
+            #[cfg(feature = "verif")]
+            if crate::verif::flag("no_uring") {
+                return Ok(Self {
+                    ring: None,
+                    next_user_data: 0,
+                    write_indeterminate: AtomicBool::new(false),
+                    journal_generation: AtomicU64::new(0),
+                    journal_slot: AtomicUsize::new(ALLOCATION_JOURNAL_SLOTS - 1),
+                    file_identity,
+                    _file: file,
+                    fd,
+                    _use_direct_io: use_direct_io,
+                });
+            }
+
             // Create io_uring instance
             let ring: Option<IoUring> = IoUring::builder()
                 .setup_sqpoll(IOURING_SQPOLL_IDLE_MS)
@@ -443,6 +458,11 @@ impl DiskIO {
 
         #[cfg(unix)]
         {
+            #[cfg(feature = "verif")]
+            if let Some(result) = crate::verif::intercept_write("pwrite", self.fd, offset, data) {
+                return result;
+            }
+
             let written = if self._use_direct_io {
                 // O_DIRECT path: need aligned buffer
                 let mut aligned_buffer = AlignedBuffer::new(data.len())?;
@@ -468,6 +488,14 @@ impl DiskIO {
                     )
                 }
             };
+
+            #[cfg(feature = "verif")]
+            crate::verif::wrote(
+                "pwrite",
+                offset,
+                &data[..(written.max(0) as usize).min(data.len())],
+                written >= 0 && written as usize == data.len(),
+            );
 
             if written < 0 {
                 return Err(FeoxError::IoError(io::Error::last_os_error()));
@@ -525,10 +553,23 @@ impl DiskIO {
 
     pub fn flush(&self) -> Result<()> {
         self.ensure_writable()?;
+        #[cfg(feature = "verif")]
+        let verif_fail_after = match crate::verif::intercept_fsync() {
+            None => false,
+            Some(Ok(())) => true,
+            Some(Err(error)) => return Err(error),
+        };
         #[cfg(unix)]
         unsafe {
             if libc::fsync(self.fd) == -1 {
                 return Err(FeoxError::IoError(io::Error::last_os_error()));
+            }
+        }
+        #[cfg(feature = "verif")]
+        {
+            crate::verif::fsync_end(!verif_fail_after);
+            if verif_fail_after {
+                return Err(crate::verif::injected_fsync_error());
             }
         }
 
@@ -714,6 +755,13 @@ impl DiskIO {
                     (block_sector * FEOX_BLOCK_SIZE as u64) as libc::off_t,
                 )
             };
+            #[cfg(feature = "verif")]
+            crate::verif::wrote(
+                "retire_direct",
+                block_sector * FEOX_BLOCK_SIZE as u64,
+                &scratch.as_slice()[..(written.max(0) as usize).min(size)],
+                written >= 0 && written as usize == size,
+            );
             if written < 0 {
                 return Err(FeoxError::IoError(io::Error::last_os_error()));
             }
@@ -772,6 +820,15 @@ impl DiskIO {
             return Ok(());
         }
 
+        #[cfg(feature = "verif")]
+        if crate::verif::flag("force_sync_io") {
+            for (sector, data) in writes {
+                self.write_sectors_sync(*sector, data.as_slice())?;
+            }
+            self.flush()?;
+            return Ok(());
+        }
+
         for chunk in writes.chunks(IOURING_MAX_BATCH) {
             let mut buffers = InFlightBuffers::with_capacity(chunk.len());
             for (_sector, data) in chunk {
@@ -806,11 +863,17 @@ impl DiskIO {
                     .build()
                     .user_data(user_data_base.wrapping_add(i as u64));
 
+                    #[cfg(feature = "verif")]
+                    let verif_view = (buffer.as_ptr(), buffer.len());
                     buffers.mark_in_flight(i);
                     if unsafe { sq.push(&write_e) }.is_err() {
                         buffers.mark_unqueued(i);
                         break;
                     }
+                    #[cfg(feature = "verif")]
+                    crate::verif::queued("uring", offset, unsafe {
+                        std::slice::from_raw_parts(verif_view.0, verif_view.1)
+                    });
                     queued += 1;
                 }
 
